@@ -109,6 +109,18 @@ impl PartialOrd for Fl {
     w("  #[verifier::external_body] pub fn ln(self) -> (r: Fl) requires self@ > 0real ensures r@ == ln_r(self@), self@ > 1real ==> r@ > 0real { unimplemented!() }\n")
     for c in CONSTS:
         w(f"  #[verifier::external_body] pub fn {c}() -> (r: Fl) ensures r@ == c_{c}() {{ unimplemented!() }}\n")
+    # the rest of the num_traits::Float interface the generic code may use on F (same specifications as on the scalar)
+    fdom = {"sqrt": "self@ >= 0real", "log2": "self@ > 0real", "log10": "self@ > 0real", "ln_1p": "self@ > -1real", "asin": "-1real <= self@ <= 1real",
+            "acos": "-1real <= self@ <= 1real", "acosh": "self@ >= 1real", "atanh": "-1real < self@ < 1real"}
+    frn = {"exp_m1": "expm1", "ln_1p": "ln1p"}
+    for m in ["sqrt", "cbrt", "exp", "exp2", "exp_m1", "log2", "log10", "ln_1p", "sin", "cos", "tan", "asin", "acos", "atan", "sinh", "cosh", "tanh",
+              "asinh", "acosh", "atanh", "signum"]:
+        req = f" requires {fdom[m]}" if m in fdom else ""
+        w(f"  #[verifier::external_body] pub fn {m}(self) -> (r: Fl){req} ensures r@ == {frn.get(m, m)}_r(self@) {{ unimplemented!() }}\n")
+    w("  #[verifier::external_body] pub fn sin_cos(self) -> (r: (Fl, Fl)) ensures r.0@ == sin_r(self@), r.1@ == cos_r(self@) { unimplemented!() }\n")
+    w("  #[verifier::external_body] pub fn atan2(self, other: Fl) -> (r: Fl) ensures r@ == atan2_r(self@, other@) { unimplemented!() }\n")
+    w("  #[verifier::external_body] pub fn powi(self, n: i32) -> (r: Fl) requires self@ != 0real || n >= 0 ensures r@ == powi_r(self@, n as int) { unimplemented!() }\n")
+    w("  #[verifier::external_body] pub fn powf(self, n: Fl) -> (r: Fl) requires self@ > 0real || (self@ == 0real && n@ >= 0real) ensures r@ == powf_r(self@, n@) { unimplemented!() }\n")
     w("}\n")
     # Sc methods
     dom = {
@@ -339,6 +351,8 @@ impl Mx {
     #[verifier::external_body] pub fn shape(&self) -> (r: (usize, usize)) ensures r.0 == self.nrows(), r.1 == self.ncols() { unimplemented!() }
     #[verifier::external_body] pub fn lin_ref(&self, k: usize) -> (r: &Sc) requires k < self.nrows() * self.ncols() ensures r@ == self.at(k as int % self.nrows(), k as int / self.nrows()) { unimplemented!() }
     #[verifier::external_body] pub fn to_strings(&self) -> (r: Strs) ensures r.src() == *self { unimplemented!() }
+    #[verifier::external_body] pub fn column(&self, j: usize) -> (r: Mx) requires j < self.ncols() ensures r.nrows() == self.nrows(), r.ncols() == 1, forall|i: int| #![trigger r.at(i, 0)] r.at(i, 0) == self.at(i, j as int) { unimplemented!() }
+    #[verifier::external_body] pub fn row(&self, i: usize) -> (r: Mx) requires i < self.nrows() ensures r.nrows() == 1, r.ncols() == self.ncols(), forall|j: int| #![trigger r.at(0, j)] r.at(0, j) == self.at(i as int, j) { unimplemented!() }
 }
 pub open spec fn mx_trace(t: Seq<Piece>, m: Mx) -> Seq<Piece> {
     if m.nrows() == 1 && m.ncols() == 1 { t.push(Piece::Val(m.at(0, 0))) }
